@@ -11,7 +11,7 @@ from common import lean_driver
 
 LEVEL = 'proof'
 
-TOKS = ['-m', '--', '-l', '-v', '-o', 'x', 'mod', '-p', '--view', '-b', 'a=b', '-z']
+TOKS = ['-m', '--', '-l', '-v', '-o', 'x', 'mod', '-p', '--view', '-b', 'a=b', '-z', '-h', '--help']
 # (prefix, line_by_line, view, outfile or None)
 PREFIXES = [
     ([], False, False, None), (['-l'], True, False, None), (['-b'], False, False, None), (['-l', '-v'], True, True, None),
